@@ -3132,3 +3132,119 @@ def ob_evaluate_collect_all(ctx, n_routes, n_jobs, fold_jobs):
         res.status, res.detail = 'inconclusive', 'vacuous'
     res.time = time.time() - t0
     return res
+
+
+# ---------------------------------------------------------------------------------------------------------------------
+# C16: construction of the time-aware provider
+
+def ob_time_aware_new(ctx, n):
+    """C16 (time-dependent routing, construction): `TimeAwareMatrixTransportCost::new` (real MIR incl. the sort by
+    timestamp; `collect_group_by_key` = grouping by key, hash containers as association lists with symbolic keys) for n
+    matrices with symbolic profile index, symbolic timestamp and symbolic 'timestamp present': rejected exactly when a
+    timestamp is missing or a profile has a single matrix; otherwise every profile's group holds exactly its matrices,
+    ascending by timestamp, with the timestamp vector aligned - the state the interpolation obligations start from."""
+    name = f'time_aware_new[matrices={n}]'
+    res = Result(name)
+    res.bounds = f'{n} matrices, profile index symbolic in {{0,1}}, timestamps symbolic integers in [0,2^16], presence of each timestamp symbolic'
+    t0 = time.time()
+    fns = ctx.prog.find_method('TimeAwareMatrixTransportCost', 'new')
+    if len(fns) != 1:
+        raise Inconclusive('TimeAwareMatrixTransportCost::new not found')
+
+    class Env(drivers.Env):
+        symbolic_maps = True
+
+        def override(self, engine, st, callee, args, dest_ty):
+            if 'collect_group_by_key' in callee:
+                from symex import AMapV
+                from models import iterator_method, value_eq
+                it = iterator_method(engine, st, 'into_iter', [args[0]], '')
+                groups = []        # [(key, VecV)]
+                for item in it.items:
+                    key = engine.call_closure(st, args[1], [RefV(Cell(item), 0)])
+                    for gk, vec in groups:
+                        if engine.split_bool(st, zs(value_eq(gk, key))):
+                            vec.items.append(item)
+                            break
+                    else:
+                        groups.append((key, VecV([item])))
+                return AMapV(groups)
+            return super().override(engine, st, callee, args, dest_ty)
+
+    env = Env(ctx.prog, ctx.layout, 16)
+    eng = symex.Engine(ctx.prog, ctx.layout, env)
+    holder = {}
+
+    def body(st):
+        env.assumptions.clear()
+        mats, info = [], []
+        for i in range(n):
+            prof = env.sym_i(f'profile{i}', 0, 1)
+            ts = env.sym_f(f'timestamp{i}')
+            has = z3.Bool(f'has_timestamp{i}')
+            mats.append(env.struct('costs::MatrixData', index=prof, timestamp=mk_option(has, ts, ty='Option<f64>'), durations=VecV([FV.const(i)]), distances=VecV([FV.const(i)])))
+            info.append((prof, ts, has))
+        holder['info'] = info
+        return eng.exec_fn(st, fns[0], [VecV(mats), IV(1), Opaque('NoFallback')])
+
+    paths = eng.explore(body, max_paths=20000)
+    res.paths = len(paths)
+    res.functions |= eng.functions_used
+    saw_ok = saw_err = False
+    order = ctx.layout.fields('costs::TimeAwareMatrixTransportCost')
+    for st, out in paths:
+        if out is None:
+            if not no_panic(ctx, res, env, st, what=name):
+                break
+            continue
+        info = holder['info']
+        missing = z3.Or(*[z3.Not(h) for _, _, h in info])
+        single = z3.Or(*[z3.Sum([z3.If(p2.t == p.t, 1, 0) for p2, _, _ in info]) == 1 for p, _, _ in info])
+        if out.variant() is None:
+            res.status, res.detail = 'inconclusive', 'symbolic result variant'
+            break
+        if out.variant() == 1:
+            claim = z3.Or(missing, single)
+            saw_err = True
+        else:
+            provider = out.payload[0][0]
+            costs = provider.fields[order.index('costs')]
+            conds = [z3.Not(missing), z3.Not(single)]
+            total = 0
+            for key, val in costs.entries:
+                tss, ms = val.fields[0].items, val.fields[1].items
+                total += len(ms)
+                if len(tss) != len(ms):
+                    conds.append(z3.BoolVal(False))
+                    continue
+                for t_, m_ in zip(tss, ms):
+                    conds.append(env.field(m_, 'costs::MatrixData', 'index').t == key.t)
+                    conds.append(t_.t == env.field(m_, 'costs::MatrixData', 'timestamp').payload[1][0].v)
+                for a_, b_ in zip(tss, tss[1:]):
+                    conds.append(a_.t <= b_.t)
+            conds.append(z3.BoolVal(total == n))
+            keys = [k for k, _ in costs.entries]
+            for i in range(len(keys)):
+                for j in range(i + 1, len(keys)):
+                    conds.append(keys[i].t != keys[j].t)
+            claim = z3.And(*conds)
+            saw_ok = True
+        if not decide_claim(ctx, res, env, st, claim, what=f'{name}: rejected <=> missing timestamp or single matrix; accepted => grouped by profile, ascending, aligned'):
+            if res.status == 'violated' and res.model is not None:
+                m = res.model
+                ev = lambda t: m.eval(t, model_completion=True).as_long()
+                if all(z3.is_true(m.eval(h, model_completion=True)) for _, _, h in info) and len({ev(p.t) for p, _, _ in info}) == 1:
+                    # one profile, all timestamps present: the provider is built from the matrices in the model's order and asked after the
+                    # last timestamp - it must answer from the matrix with the LARGEST timestamp
+                    tsv = [ev(t.v) for _, t, _ in info]
+                    res.case = {'kind': 'time_aware', 'size': 1, 'from': 0, 'to': 0, 'query': max(tsv) + 1,
+                                'matrices': [{'timestamp': tsv[i], 'durations': [10.0 * (i + 1)], 'distances': [10.0 * (i + 1)]} for i in range(n)]}
+            break
+        if not no_panic(ctx, res, env, st, what=name):
+            break
+    if res.status == 'holds':
+        res.witnesses = int(saw_ok) + int(saw_err)
+        if not (saw_ok and saw_err):
+            res.status, res.detail = 'inconclusive', f'vacuous: ok={saw_ok} err={saw_err}'
+    res.time = time.time() - t0
+    return res
